@@ -310,6 +310,27 @@ def _b_openvpn_tcp(a, b, c, data, flag):
 BUILDERS = {name[3:]: fn for name, fn in list(globals().items()) if name.startswith('_b_')}
 
 
+def banner_lengths():
+    """concrete: identification strings of 250..255 bytes (RFC 4253 maximum) compose and parse back"""
+    from cryptoparser.ssh.subprotocol import SshProtocolMessage  # pylint: disable=import-outside-toplevel
+    from cryptoparser.ssh.version import SshProtocolVersion, SshSoftwareVersionUnparsed, SshVersion  # pylint: disable=import-outside-toplevel
+    problems = []
+    for total in range(250, 256):
+        for comment in (None, 'c'):
+            software = 'x' * (total - 8 - 2 - (2 if comment else 0))
+            obj = SshProtocolMessage(SshProtocolVersion(SshVersion.SSH2, 0), SshSoftwareVersionUnparsed(software),
+                                     comment)
+            composed = bytes(obj.compose())
+            try:
+                parsed, size = SshProtocolMessage.parse_immutable(composed)
+            except Exception as exc:  # pylint: disable=broad-except
+                problems.append('banner of %d bytes composes but is rejected: %s' % (len(composed), type(exc).__name__))
+                continue
+            if size != len(composed) or not deep_eq(parsed, obj):
+                problems.append('banner of %d bytes does not round trip' % len(composed))
+    return problems
+
+
 def constructed(a: int, b: int, c: int, data: bytes, flag: bool) -> bool:
     """post: _"""
     if len(data) > P['B'] or not (0 <= a < 2 ** 64 and 0 <= b < 2 ** 64 and 0 <= c < 2 ** 64):
@@ -383,4 +404,12 @@ def shards(tier, seed):
             240 if kind == 'tls_ext_reneg' else 90),
                          bounds=bounds % ('', par['B'])))
     out += windows.window_shards('rt', tier, seed, per_seed=2, tag='p')
+    # text values whose construction goes through a parser: the shape generators of C05 assert the same chain
+    from symcheck.harness import c05_canonical  # pylint: disable=import-outside-toplevel
+    for shard in c05_canonical.shards(tier, seed):
+        if shard.label.startswith(('shape/spf', 'shape/dns_name', 'shape/txt_multi')):
+            shard.label = 't/' + shard.label[len('shape/'):]
+            out.append(shard)
+    out.append(Shard(MOD, 'banner_lengths', 'k/ssh_banner_lengths', {}, kind='concrete',
+                     bounds='identification strings of 250..255 bytes with and without comment (natively)'))
     return out
